@@ -198,23 +198,26 @@ def consumeDeclspec (fuel : Nat) : M Unit := do
   let _ ← consumeBalancedTokens fuel [tok]
   pure ()
 
+/-- one iteration of `_consume_attribute_specifier_seq` -/
+def attrSeqBody (fuel : Nat) (tok : CTok) : M (CTok ⊕ Unit) := do
+  if tok.type = "DBL_LBRACKET" then do
+    let _ ← consumeBalancedTokens fuel [tok]
+    match (← tokenIf Gen.attributeSpecifierSeqStartTypes) with
+    | none => pure (.inr ())
+    | some t => pure (.inl t)
+  else if tok.type = "alignas" then do
+    let nextTok ← nextTokenMustBe ["("]
+    let _ ← consumeBalancedTokens fuel [nextTok]
+    match (← tokenIf Gen.attributeSpecifierSeqStartTypes) with
+    | none => pure (.inr ())
+    | some t => pure (.inl t)
+  else do
+    returnToken tok
+    pure (.inr ())
+
 /-- `_consume_attribute_specifier_seq(tok)` -/
 def consumeAttributeSpecifierSeq (fuel : Nat) (tok : CTok) : M Unit :=
-  loopN fuel tok (fun tok => do
-    if tok.type = "DBL_LBRACKET" then do
-      let _ ← consumeBalancedTokens fuel [tok]
-      match (← tokenIf Gen.attributeSpecifierSeqStartTypes) with
-      | none => pure (.inr ())
-      | some t => pure (.inl t)
-    else if tok.type = "alignas" then do
-      let nextTok ← nextTokenMustBe ["("]
-      let _ ← consumeBalancedTokens fuel [nextTok]
-      match (← tokenIf Gen.attributeSpecifierSeqStartTypes) with
-      | none => pure (.inr ())
-      | some t => pure (.inl t)
-    else do
-      returnToken tok
-      pure (.inr ()))
+  loopN fuel tok (attrSeqBody fuel)
 
 /-- `_consume_attribute(tok)` -/
 def consumeAttribute (fuel : Nat) (tok : CTok) : M Unit :=
